@@ -8,7 +8,7 @@ import time
 
 import numpy as np
 
-from ..harness import T, sig_of, elem_names, gradof, set_grad
+from ..harness import T, sig_of, elem_names, gradof, set_grad, children_of
 from ..symnum import engine as E
 from .. import runner
 
@@ -171,7 +171,7 @@ class Case:
                 continue
             seen.add(id(t))
             reach.append(t)
-            st.extend(t._children)
+            st.extend(children_of(t))
         fns = [t.grad_fn for t in reach if t.grad_fn is not None]
         out.fact("each recorded operation fires exactly once", sorted(map(id, log)) == sorted(map(id, fns)),
                  "%d calls for %d recorded operations" % (len(log), len(fns)))
@@ -180,7 +180,7 @@ class Case:
         for t in reach:
             if t.grad_fn is None or id(t.grad_fn) not in pos:
                 continue
-            for c in t._children:
+            for c in children_of(t):
                 if c.grad_fn is not None and id(c.grad_fn) in pos and pos[id(c.grad_fn)] < pos[id(t.grad_fn)]:
                     ok_order = False
         out.fact("consumers are differentiated before their operands (reverse topological order)", ok_order)
